@@ -12,5 +12,5 @@ grep -E "^VIOLATION|^KNOWN|^\[$P\]" /tmp/seedrun_$NAME.log | head -5
 echo "seed $NAME property $P tier $TIER: check exit=$RC ($( [ $RC -ne 0 ] && echo DETECTED || echo MISSED ))"
 python3 - <<PY
 import json
-p='$D/meta.json'; m=json.load(open(p)); m.setdefault('detection',{})['$TIER']=dict(exit=$RC, detected=($RC!=0)); json.dump(m,open(p,'w'),indent=1)
+p='$D/meta.json'; m=json.load(open(p)); m.setdefault("detection",{})["$TIER" + ("" if "${VERIF_SEED:-0}"=="0" else "_seed${VERIF_SEED}")]=dict(exit=$RC, detected=($RC!=0)); json.dump(m,open(p,'w'),indent=1)
 PY
